@@ -1,4 +1,5 @@
 import Secp.Proofs.GroupTies
+import Secp.Proofs.BytesTies
 import Secp.Proofs.HashToGroup
 /-!
 # C08 — HashToGroup / EncodeToGroup conform to RFC 9380 for every message and DST
@@ -79,6 +80,11 @@ theorem regenerated_empty_dst_panics (H : Bytes → Bytes) (hH : HashOK H) (msg 
 theorem wide_reduction (input : Bytes) (hb : IsBytes input) (hl : input.length = 48) :
     limbOk (Hand.Fp.hashToFieldElement input) ∧ limbVal (Hand.Fp.hashToFieldElement input) = ((os2ip input : Nat) : ZMod P) :=
   fp_hashToField input hb hl
+
+/-- the wide reduction regenerated from `internal/field` on this run does not panic on 48-byte inputs and is the model's -/
+theorem wide_reduction_regenerated (e : L4) (input : Bytes) (hl : input.length = 48) :
+    GenFieldBytes.element_hashToFieldElement e input = some (Hand.Fp.hashToFieldElement input) :=
+  BytesTies.fp_hashToFieldElement e input hl
 
 /-- the affine sum used by the specification is the group law (so `hash_to_curve` adds in the group) -/
 theorem spec_sum_is_group_law (a b : APoint) (ha : SpecPt a) (hb : SpecPt b) :
